@@ -203,9 +203,16 @@ replacement step `dbReplace`. With `dl = none` nothing arrives and the database 
 def DNode.dlClear (d : DNode) (pre : Bool) : DNode :=
   if pre then { d with n := d.n.mapLiveFolder dlFolder (fun G => G.mapLiveFile dbFile File.delete) } else d
 
+/-- the file `_store_data` creates: a fresh file (visible NONE) with the delivered health — written on THAT object only -/
+def arrivedFile (h : FsH) : File := { freshFile dbFile with actual := h }
+
 def DNode.dlArrive (d : DNode) (h : FsH) : DNode :=
   if (d.n.liveFile? dlFolder dbFile).isSome then d
-  else { (d.createFile dlFolder dbFile) with n := (d.createFile dlFolder dbFile).n.apply (.fileSet dlFolder dbFile h) }
+  else
+    let d1 := match d.n.liveFolder? dlFolder with
+      | some _ => d
+      | none => d.createFolder dlFolder
+    { d1 with n := d1.n.addFile dlFolder (arrivedFile h) }
 
 def DNode.dbRestore (d : DNode) (pre : Bool) (dl : Option FsH) : DNode :=
   match dl with
